@@ -166,6 +166,9 @@ func Gen(r R, depth int, ids []string, rich bool) Q {
 		if r.Intn(3) == 0 {
 			q.Not = subs(1, 2)
 		}
+		if r.Intn(3) == 0 {
+			q.Flt = subs(1, 1)
+		}
 		return q
 	}
 }
